@@ -471,6 +471,7 @@ func (a *analysis) result() *result {
 
 	a.channelOps(res, remap)
 	a.checkThenAct(res, remap, acq)
+	a.writeAfterPublish(res)
 
 	for f, es := range a.entry {
 		if len(es.locks) == 0 || a.funcs[f] == nil {
@@ -1083,5 +1084,42 @@ func (a *analysis) checkThenAct(res *result, remap map[int]int, acq map[*types.F
 		}
 	}
 	res.Summary.CTARows = len(res.CTA)
+	res.Summary.StaleKnown = len(res.StaleKnown)
+}
+
+// writeAfterPublish confronts the write-after-publish rows with the baseline.
+func (a *analysis) writeAfterPublish(res *result) {
+	seen := map[[3]string]bool{}
+	used := make([]bool, len(a.cfg.WriteAfterPublish))
+	for _, r := range a.pubRows {
+		k := [3]string{r.fn, r.field, r.varName}
+		if seen[k] {
+			continue
+		}
+		seen[k] = true
+		o := pubOut{Func: r.fn, Field: r.field, Var: r.varName, PublishedAt: r.pubPos, WrittenAt: r.writePos}
+		for j, b := range a.cfg.WriteAfterPublish {
+			if b.Func == r.fn && b.Field == r.field && b.Var == r.varName {
+				o.Listed = true
+				used[j] = true
+			}
+		}
+		res.Pub = append(res.Pub, o)
+	}
+	for j, b := range a.cfg.WriteAfterPublish {
+		if !used[j] {
+			res.StaleKnown = append(res.StaleKnown, fmt.Sprintf("write-after-publish %s %s %s", b.Func, b.Field, b.Var))
+		}
+	}
+	sort.Slice(res.Pub, func(i, j int) bool {
+		return res.Pub[i].Func+res.Pub[i].Field+res.Pub[i].Var < res.Pub[j].Func+res.Pub[j].Field+res.Pub[j].Var
+	})
+	for i := range res.Pub {
+		res.Pub[i].Site = i
+		if !res.Pub[i].Listed {
+			res.Summary.UnlistedPub++
+		}
+	}
+	res.Summary.PubRows = len(res.Pub)
 	res.Summary.StaleKnown = len(res.StaleKnown)
 }
